@@ -61,6 +61,7 @@ impl From<IoError> for BBIFileReadInfoError {
 //@sub /[ \t]*#\[error\([^\n]*\)\]\n/ => "" min=0
 //@sub /#\[from\] io::Error/ => IoError min=1
 //@sub /InvalidFile\(String\)/ => InvalidFile(ErrText) min=1
+//@sub /^enum ChromTreeBlockReadError/ => pub enum ChromTreeBlockReadError min=1
 //@end
 impl vstd::std_specs::convert::FromSpecImpl<IoError> for ChromTreeBlockReadError {
     open spec fn obeys_from_spec() -> bool { true }
@@ -190,20 +191,21 @@ pub fn map_err_to<T, E, F>(r: Result<T, E>, e: F) -> (o: Result<T, F>)
 }
 
 //@include spec.rs
+//@include fmt_copy.rs
+//@include corollaries.rs
 
 // ---- read_chrom_tree_block ----
 // R11 (structural): reader type parameter -> VRead; `BytesMut::zeroed(n); f.read_exact(..)?` -> `f.read_cur(n)?`;
 // `f.seek(SeekFrom::Start(x))?` -> `f.seek_start(x)?`; the three `for` loops get a named counter;
 // GHOST-ONLY ADDITION: an extra last parameter `Ghost(t): Ghost<CTree>` (the tree the bytes at the reader
 // position encode) and, at the recursive call, the argument `Ghost(kid_tree(t, k__ - 1))`.  Erased at run time.
-#[verifier::loop_isolation(false)]
 //@extract fn bigtools/src/bbi/bbiread.rs read_chrom_tree_block
 //@rule R8
 //@sub /read_chrom_tree_block<R: SeekableRead>\(\s*f: &mut R,/ => read_chrom_tree_block(f: &mut VRead, min=1
 //@sub /key_size: u32,\n\) ->/ => key_size: u32,\n    Ghost(t): Ghost<CTree>,\n) -> min=1
 //@sub /let mut (\w+) = BytesMut::zeroed\(([^;]*)\);\s*(\w+)\.read_exact\(&mut \1\)\?;/ => let mut \1 = \3.read_cur(\2)?; min=0
 //@sub /(\w+)\.seek\(SeekFrom::Start\(([^;]*)\)\)\?;/ => \1.seek_start(\2)?; min=0
-//@sub /for _ in 0\.\.count/ => for k__ in 0..count min=0
+//@sub /for _ in ([^{]*?)\s*\{/ => for k__ in \1 { min=0
 //@sub /for child in children(\.into_iter\(\))? \{/ => let mut k__: usize = 0; while k__ < children.len() { let child = children[k__]; k__ = k__ + 1; min=0
 //@sub /for child in children\.(into_)?iter\(\)\.rev\(\) \{/ => let mut k__: usize = children.len(); while k__ > 0 { k__ = k__ - 1; let child = children[k__]; min=0
 //@sub /for child in children\.(into_)?iter\(\)\.take\((\w+)\) \{/ => let mut k__: usize = 0; while k__ < children.len() && k__ < \2 { let child = children[k__]; k__ = k__ + 1; min=0
@@ -239,7 +241,7 @@ pub fn map_err_to<T, E, F>(r: Result<T, E>, e: F) -> (o: Result<T, F>)
     let ghost ks = key_size as int;
     let ghost pre = chroms@;
     proof { lemma_tree_at_unfold(c0, big, ks, p0, t); }
-//@at /if isleaf == 1/ before
+//@at /if isleaf / before
     let ghost n = node_count(t);
     proof {
         [[L: body/node_header_decoded]]
@@ -258,16 +260,24 @@ pub fn map_err_to<T, E, F>(r: Result<T, E>, e: F) -> (o: Result<T, F>)
         let ghost items = t->Leaf_0;
 //@loop 1
             invariant
+                [[L: loop_leaf/frame]]
+                c0 == old(f).content(), p0 == old(f).pos(), big == is_big(endianness), ks == key_size as int, pre == old(chroms)@,
+                n == node_count(t), tree_at(c0, big, ks, p0, t), 0 <= ks <= 0xFFFF_FFFF, 0 <= n <= 0xFFFF,
+                f.content() == c0, f.failed() ==> old(f).failed(),
+                0 <= p0, p0 + 4 + stride(n, ks) <= c0.len(), blk == c0.subrange(p0 + 4, p0 + 4 + stride(n, ks)), 0 <= stride(n, ks),
+                t is Leaf, items == t->Leaf_0,
                 [[L: loop_leaf/cursor_at_item_boundary]]
-                bytes.rem() == blk.subrange(stride(k__ as int, ks), blk.len() as int), blk.len() == stride(n, ks), count == n,
+                blk.len() == stride(n, ks), count == n, 0 <= stride(k__ as int, ks) <= stride(n, ks),
+                bytes.rem() == blk.subrange(stride(k__ as int, ks), blk.len() as int),
                 [[L: loop_leaf/prefix_of_items_appended]]
                 chroms@.len() == pre.len() + k__, chroms@.subrange(0, pre.len() as int) == pre,
                 infos(chroms@) == infos(pre) + rows_of(items.subrange(0, k__ as int)),
-//@at /let key_string = match/ before
+//@at /for k__ in / nth=1 after
             proof {
                 lemma_stride(k__ as int, ks);
                 lemma_stride_mono(k__ as int + 1, n, ks);
                 lemma_leaf_item(c0, big, ks, p0, items, k__ as int);
+                assert(bytes.rem().subrange(0, ks) =~= c0.subrange(p0 + 4 + stride(k__ as int, ks), p0 + 4 + stride(k__ as int, ks) + ks));
             }
             let ghost chroms_before = chroms@;
 //@at /chroms\.push\(ChromInfo \{/ before
@@ -305,11 +315,18 @@ pub fn map_err_to<T, E, F>(r: Result<T, E>, e: F) -> (o: Result<T, F>)
         let ghost kids = t->Node_0;
 //@loop 2
             invariant
+                [[L: loop_ptrs/frame]]
+                c0 == old(f).content(), p0 == old(f).pos(), big == is_big(endianness), ks == key_size as int, pre == old(chroms)@,
+                n == node_count(t), tree_at(c0, big, ks, p0, t), 0 <= ks <= 0xFFFF_FFFF, 0 <= n <= 0xFFFF,
+                f.content() == c0, f.failed() ==> old(f).failed(),
+                0 <= p0, p0 + 4 + stride(n, ks) <= c0.len(), blk == c0.subrange(p0 + 4, p0 + 4 + stride(n, ks)), 0 <= stride(n, ks),
+                t is Node, kids == t->Node_0, chroms@ == pre,
                 [[L: loop_ptrs/cursor_at_item_boundary]]
-                bytes.rem() == blk.subrange(stride(k__ as int, ks), blk.len() as int), blk.len() == stride(n, ks), count == n,
+                blk.len() == stride(n, ks), count == n, 0 <= stride(k__ as int, ks) <= stride(n, ks),
+                bytes.rem() == blk.subrange(stride(k__ as int, ks), blk.len() as int),
                 [[L: loop_ptrs/child_offsets_in_stored_order]]
                 children@.len() == k__, forall|j: int| 0 <= j < k__ ==> children@[j] == (#[trigger] kids[j]).0,
-//@at /bytes\.advance\(key_size as usize\);/ nth=2 before
+//@at /for k__ in / nth=2 after
             proof {
                 lemma_stride(k__ as int, ks);
                 lemma_stride_mono(k__ as int + 1, n, ks);
@@ -324,6 +341,11 @@ pub fn map_err_to<T, E, F>(r: Result<T, E>, e: F) -> (o: Result<T, F>)
             }
 //@loop 3
             invariant
+                [[L: loop_kids/frame]]
+                c0 == old(f).content(), p0 == old(f).pos(), big == is_big(endianness), ks == key_size as int, pre == old(chroms)@,
+                n == node_count(t), tree_at(c0, big, ks, p0, t), 0 <= ks <= 0xFFFF_FFFF, 0 <= n <= 0xFFFF,
+                f.content() == c0, f.failed() ==> old(f).failed(),
+                t is Node, kids == t->Node_0,
                 [[L: loop_kids/children_visited_in_stored_order]]
                 k__ <= children@.len(), children@.len() == n, forall|j: int| 0 <= j < n ==> children@[j] == (#[trigger] kids[j]).0,
                 [[L: loop_kids/file_and_failure_flag]]
@@ -334,7 +356,7 @@ pub fn map_err_to<T, E, F>(r: Result<T, E>, e: F) -> (o: Result<T, F>)
             decreases
                 [[L: loop_kids/termination]]
                 children@.len() - k__,
-//@at /f\.seek_start\(child\)\?;/ before
+//@at /while k__ / after
             let ghost chroms_before = chroms@;
             proof {
                 lemma_kid(c0, big, ks, p0, t, k__ as int - 1);
@@ -348,6 +370,77 @@ pub fn map_err_to<T, E, F>(r: Result<T, E>, e: F) -> (o: Result<T, F>)
                 assert(infos(pre) + rows_of(a) + rows_of(b) =~= infos(pre) + (rows_of(a) + rows_of(b)));
                 assert(chroms@.subrange(0, pre.len() as int) =~= chroms@.subrange(0, chroms_before.len() as int).subrange(0, pre.len() as int));
             }
+//@end
+
+// ---- read_info, TAIL ----
+// `//@presub` CUTS THE HEAD (the mirror image of unit info's cut): the text from `let mut file = file.raw_reader();`
+// through `let zoom_headers = read_zoom_headers(file, &header)?;` (64-byte header, magic/byte-order detection,
+// field decoding, BBIHeader construction, zoom directory: all verified in unit info) is replaced by
+// `let endianness = header.endianness;` and its results become PARAMETERS: `filetype`, `header`, `zoom_headers`
+// (unit info proves `header.endianness == endianness`).  KEPT verbatim: everything from the comment line
+// `// TODO: could instead store this ...` / `file.seek(SeekFrom::Start(header.chromosome_tree_offset))?;` to the final
+// `Ok(info)`.  GHOST-ONLY ADDITION: last parameter `Ghost(t): Ghost<CTree>`, passed on to read_chrom_tree_block.
+//@extract fn bigtools/src/bbi/bbiread.rs read_info
+//@rule R8
+//@rule R6
+//@presub /let mut file = file\.raw_reader\(\);.*let zoom_headers = read_zoom_headers\(file, &header\)\?;/ => let endianness = header.endianness; min=1
+//@sub /<R: BBIFileRead>\(file: &mut R\)/ => (file: &mut VRead, filetype: BBIFile, header: BBIHeader, zoom_headers: Vec<ZoomHeader>, Ghost(t): Ghost<CTree>) min=1
+//@sub /let mut (\w+) = BytesMut::zeroed\(([^;]*)\);\s*(\w+)\.read_exact\(&mut \1\)\?;/ => let mut \1 = \3.read_cur(\2)?; min=0
+//@sub /(\w+)\.seek\(SeekFrom::Start\(([^;]*)\)\)\?;/ => \1.seek_start(\2)?; min=0
+//@sub /(read_chrom_tree_block\([^;]*?\))\s*\.map_err\(\|_\| ([\w:]+)\)/ => map_err_to(\1, \2) min=0
+//@sub /read_chrom_tree_block\(&mut file, ([^()]*)\)/ => read_chrom_tree_block(file, \1, Ghost(t)) min=0
+//@ret r
+//@sig
+    requires
+        [[L: pre_val_size_is_8]]
+        tree_hdr_ok(old(file).content(), is_big(header.endianness), header.chromosome_tree_offset as int)
+            ==> d32(is_big(header.endianness), old(file).content(), header.chromosome_tree_offset + 12) == 8,
+        [[L: pre_tree_described_by_ghost_tree]]
+        tree_hdr_ok(old(file).content(), is_big(header.endianness), header.chromosome_tree_offset as int)
+            ==> tree_at(old(file).content(), is_big(header.endianness),
+                    d32(is_big(header.endianness), old(file).content(), header.chromosome_tree_offset + 8),
+                    header.chromosome_tree_offset + 32, t),
+    ensures
+        [[L: file_not_modified]]
+        final(file).content() == old(file).content(),
+        [[L: io_failure_is_reported]]
+        final(file).failed() ==> old(file).failed() || r is Err,
+        [[L: ok_only_with_tree_magic_at_chromosome_tree_offset]]
+        r is Ok ==> tree_hdr_ok(old(file).content(), is_big(header.endianness), header.chromosome_tree_offset as int),
+        [[L: wrong_tree_magic_is_invalid_chroms]]
+        !final(file).failed() && !tree_hdr_ok(old(file).content(), is_big(header.endianness), header.chromosome_tree_offset as int)
+            ==> (r matches Err(e) && e is InvalidChroms),
+        [[L: block_reader_failure_is_invalid_chroms]]
+        r matches Err(e) ==> (!final(file).failed() ==> e is InvalidChroms),
+        [[L: chromosome_table_is_all_leaf_items_in_file_order]]
+        r matches Ok(info) ==> infos(info.chrom_info@) == rows_of(leaf_items(t)),
+        [[L: header_parts_passed_through]]
+        r matches Ok(info) ==> info.filetype == filetype && info.header == header && info.zoom_headers == zoom_headers,
+        [[L: no_spurious_error]]
+        r is Err ==> final(file).failed() || !utf8_all(leaf_items(t))
+            || !tree_hdr_ok(old(file).content(), is_big(header.endianness), header.chromosome_tree_offset as int),
+//@open
+    let ghost c0 = file.content();
+    let ghost cto = header.chromosome_tree_offset as int;
+    let ghost big = is_big(header.endianness);
+//@at /let \(key_size, val_size, item_count\) = match endianness/ before
+    proof {
+        [[L: body/tree_header_is_the_32_bytes_at_chromosome_tree_offset]]
+        assert(cto + 32 <= c0.len() && header_data.rem() == c0.subrange(cto, cto + 32));
+    }
+//@at /^    \};/ nth=1 after
+    proof {
+        [[L: body/magic_checked_in_file_byte_order]]
+        assert(tree_hdr_ok(c0, big, cto));
+        [[L: body/key_size_val_size_at_published_offsets]]
+        assert(key_size == d32(big, c0, cto + 8) && val_size == d32(big, c0, cto + 12) && item_count == d64(big, c0, cto + 16));
+    }
+    assert(val_size == 8u32); [[L: body/val_size_is_8_no_panic]]
+//@at /let info = BBIFileInfo \{/ before
+    proof {
+        assert(infos(Seq::<ChromInfo>::empty()) =~= Seq::<Row>::empty());
+        assert(Seq::<Row>::empty() + rows_of(leaf_items(t)) =~= rows_of(leaf_items(t)));
+    }
 //@end
 
 } // verus!
